@@ -322,7 +322,7 @@ Theorem dial_shape_tcp listen a q :
   DialShape.dial_shape listen a = DialShape.SvTcp q -> manager_tcp_shape a q.
 Proof.
   unfold DialShape.dial_shape. destruct (last a (C10.Model.Other 0)) eqn:El; try discriminate.
-  destruct (existsb (C10.Model.maddr_eqb a) listen); [discriminate|].
+  destruct (existsb (C10.Model.maddr_eqb a) listen || existsb (C10.Model.maddr_eqb (C10.Model.strip_p2p a)) listen)%bool; [discriminate|].
   destruct a as [|h rest]; [discriminate|].
   destruct (DialShape.is_host h) eqn:Eh; [|discriminate].
   destruct rest as [|x1 [|x2 [|x3 [|x4 r]]]]; try discriminate;
@@ -335,7 +335,7 @@ Theorem dial_shape_ws listen a q :
   DialShape.dial_shape listen a = DialShape.SvWs q -> manager_ws_shape a q.
 Proof.
   unfold DialShape.dial_shape. destruct (last a (C10.Model.Other 0)) eqn:El; try discriminate.
-  destruct (existsb (C10.Model.maddr_eqb a) listen); [discriminate|].
+  destruct (existsb (C10.Model.maddr_eqb a) listen || existsb (C10.Model.maddr_eqb (C10.Model.strip_p2p a)) listen)%bool; [discriminate|].
   destruct a as [|h rest]; [discriminate|].
   destruct (DialShape.is_host h) eqn:Eh; [|discriminate].
   assert (Hh : C10.Model.host_of h <> None) by (destruct h; try discriminate; cbn; discriminate).
